@@ -109,6 +109,7 @@ def shapes(tier, max_entries=None):
         ("ff", [2], {"dummy": 200}),          # kDummy whose size needs a two-byte NUMBER
         ("fdf", [2], {"attrs": "none"}),      # no attribute property at all: kinds come from the empty-stream vectors
         ("ff", [1, 1], {"crc_at": "folder", "omit_substreams": True}),   # SubStreamsInfo absent
+        ("fdf", [1, 0, 1], {}),   # a folder without any substream (py7zr's own append of a lone directory leaves one)
         ("d", [], {}),
         ("", [], {}),
     ]
